@@ -63,11 +63,20 @@ func routerFor(mp, mk int) *fox.Router {
 	if r := routers[k]; r != nil {
 		return r
 	}
+	// Every second configuration gives each limit twice, a lower value first (a shared base option list with the application's
+	// own value appended): options apply in order, the configured limit is the last one given.
+	twice := (mp+3*mk)%2 == 0
 	var opts []fox.GlobalOption
 	if mp >= 0 {
+		if twice {
+			opts = append(opts, fox.WithMaxRouteParams(uint16(mp/2)))
+		}
 		opts = append(opts, fox.WithMaxRouteParams(uint16(mp)))
 	}
 	if mk >= 0 {
+		if twice {
+			opts = append(opts, fox.WithMaxRouteParamKeyBytes(uint16(mk/2)))
+		}
 		opts = append(opts, fox.WithMaxRouteParamKeyBytes(uint16(mk)))
 	}
 	r, err := fox.New(opts...)
